@@ -314,6 +314,78 @@ def nested_overlap_cli(ctx, res):
             break
 
 
+def config_order_cli(ctx, res):
+    """C01 through the binary with REAL processes, pipelines built from a configuration file: random DAGs whose stages have names of their own
+    or the default name (their task's), share tasks, refer to each other by name - also when a stage's name equals the task of a differently
+    named stage; stages that allow the failure of a failing task, and of a task whose command outlives its timeout for a while (ignores the
+    interrupt): a stage starts only after the PROCESSES of all its dependencies have ended."""
+    import clilib
+    rng = vlib.rng_for(ctx.seed, "C01config")
+    ms = 'f=$(mktemp "$PROJ/m.start.{{index . ".Stage.Name"}}.XXXXXX"); date +%s%N > "$f"; '
+    me = 'g=$(mktemp "$PROJ/m.end.{{index . ".Stage.Name"}}.XXXXXX"); date +%s%N > "$g"'
+    tasks = {"build": {"command": [ms + "sleep {{.D}}; " + me]}, "test": {"command": [ms + "sleep {{.D}}; " + me]}, "lint": {"command": [ms + "sleep {{.D}}; " + me]},
+             "flaky": {"command": [ms + "sleep {{.D}}; " + me + "; exit 3"]},
+             # the command ignores the interrupt sent at the timeout and ends by itself a second later: only then has the stage finished
+             "surv": {"timeout": "300ms", "command": [ms + 'g=$(mktemp "$PROJ/m.end.{{index . ".Stage.Name"}}.XXXXXX"); sh -c "trap \'\' INT; sleep 1.3; date +%s%N > $g"']}}
+    jobs = []
+    for k in range(40 if ctx.tier == "thorough" else 12):
+        stages = []
+        names = []
+        if k % 3 == 0:          # a stage named after its task `build` (slow) next to a stage `build-arm` running the same task (fast): depends_on [build] means the former
+            stages += [{"task": "build", "variables": {"D": "0.7"}}, {"task": "build", "name": "build-arm", "variables": {"D": "0.05"}}]
+            names += ["build", "build-arm"]
+        for i in range(rng.randint(2, 4)):
+            tk = rng.choice(["build", "test", "lint", "flaky", "surv"] if k % 3 else ["test", "lint", "flaky", "surv"])
+            st = {"task": tk, "variables": {"D": rng.choice(["0.05", "0.2", "0.4"])}}
+            if tk in names or rng.random() < 0.4:
+                st["name"] = "s%d" % i
+            nm = st.get("name", tk)
+            if tk in ("flaky", "surv"):
+                st["allow_failure"] = True
+            deps = [d for d in names if rng.random() < 0.45]
+            if deps:
+                st["depends_on"] = deps
+            names.append(nm)
+            stages.append(st)
+        decl = list(stages)
+        rng.shuffle(decl)
+        jobs.append({"id": k, "files": {"cfg.json": clilib.jcfg({"tasks": tasks, "pipelines": {"p": decl}})}, "argv": ["-c", "cfg.json", "--raw", "run", "pipeline", "p"], "keepglob": "m.*",
+                     "timeout": 40, "stages": stages})
+    out = clilib.run_cli(ctx.workdir + "/cfgorder", jobs, timeout=40, workers=6)
+    for j in jobs:
+        r = out[j["id"]]
+        res.evaluations += 1
+        res.count("config-order-cli")
+        res.nontrivial_keys.add(json.dumps(j["stages"]))
+        case = {"kind": "config-order-cli", "stages": j["stages"], "config": json.loads(j["files"]["cfg.json"])}
+        if r["timeout"] or clilib.crashed(r) or r["rc"] != 0:
+            res.violations.append({"class": None, "what": "a pipeline built from a configuration file (every failure allowed) failed, hung or crashed", "case": case,
+                                   "observed": {"rc": r["rc"], "err": (r.get("err") or "")[-500:]}})
+            continue
+        ev = {}
+        for fn, txt in r["files"].items():
+            parts = fn.split(".")
+            if len(parts) == 4 and txt.strip().isdigit():
+                ev.setdefault((parts[1], parts[2]), []).append(int(txt.strip()))
+        problem = None
+        for st in j["stages"]:
+            nm = st.get("name", st["task"])
+            starts = ev.get(("start", nm), [])
+            if len(starts) != 1:
+                problem = "stage %s ran %d times" % (nm, len(starts))
+                break
+            for d in st.get("depends_on", []):
+                ends = ev.get(("end", d), [])
+                if not ends or max(ends) > starts[0]:
+                    problem = "stage %s started before the process of its dependency %s had ended" % (nm, d)
+                    break
+            if problem:
+                break
+        if problem:
+            res.violations.append({"class": None, "what": "a pipeline built from a configuration file: " + problem, "case": case,
+                                   "observed": {"%s.%s" % kk: sorted(v) for kk, v in sorted(ev.items())}})
+
+
 def twice_included_cli(ctx, res):
     """C01 / C03 through the binary: ONE pipeline included by two stages of an outer pipeline, the second inclusion reached while the first
     is still running it; and the same pipeline named twice on the command line.  The run ends; nothing starts while a dependency of
@@ -544,7 +616,7 @@ def nested_conderr_cli(ctx, res):
 
 def run(ctx, prop):
     res = vlib.Result()
-    extra_kinds = {"nested-cli": nested_cli, "nested-conderr-cli": nested_conderr_cli, "nested-overlap-cli": nested_overlap_cli, "real-overlap-cli": real_overlap_cli, "twice-included-cli": twice_included_cli, "config-cli": config_cli}
+    extra_kinds = {"nested-cli": nested_cli, "nested-conderr-cli": nested_conderr_cli, "nested-overlap-cli": nested_overlap_cli, "real-overlap-cli": real_overlap_cli, "twice-included-cli": twice_included_cli, "config-cli": config_cli, "config-order-cli": config_order_cli}
     if ctx.replay_cases and any(c.get("kind") in extra_kinds for c in ctx.replay_cases):
         # a replay of a case of one of the through-the-binary sections runs that section again
         for kind in sorted({c.get("kind") for c in ctx.replay_cases if c.get("kind") in extra_kinds}):
@@ -664,6 +736,7 @@ def run(ctx, prop):
     if prop == "C01" and not ctx.replay_cases:
         nested_cli(ctx, res)
         twice_included_cli(ctx, res)
+        config_order_cli(ctx, res)
     if prop == "C02" and not ctx.replay_cases:
         config_cli(ctx, res)
     if prop == "C03" and not ctx.replay_cases:
